@@ -553,10 +553,20 @@ pub fn check_bridge(line: &[u8], reply: bool, fault: u8, j: usize) -> (String, V
 /// Two lines through the SAME bridge: whatever the first line was (valid, malformed, empty), a valid second line
 /// must be forwarded and answered normally.
 pub fn check_bridge_seq(line1: &[u8], line2: &[u8]) -> (String, Vec<V>) {
+    check_bridge_seq_cut(line1, None, line2)
+}
+
+/// `cut`: the first "line" is an unterminated fragment after which the port reports this answer (timeout / end of
+/// input); the second line arrives afterwards.
+pub fn check_bridge_seq_cut(line1: &[u8], cut: Option<RAns>, line2: &[u8]) -> (String, Vec<V>) {
     let log = new_log();
     let mut tape = line1.to_vec();
     tape.extend_from_slice(line2);
-    let sio = ScriptIo::new(tape, log.clone());
+    let mut sio = ScriptIo::new(tape, log.clone());
+    if let Some(c) = &cut {
+        sio.rscript = vec![RAns::Deliver(1); line1.len()];
+        sio.rscript.push(c.clone());
+    }
     let io = Rc::new(RefCell::new(sio));
     let port = ScriptPort::new(io.clone(), Line { baud: serial_core::Baud300, char_size: serial_core::Bits5, parity: serial_core::ParityEven, stop_bits: serial_core::Stop2, flow: serial_core::FlowHardware }, Duration::from_millis(3), None);
     let calls = Rc::new(RefCell::new(0u32));
@@ -579,10 +589,10 @@ pub fn check_bridge_seq(line1: &[u8], line2: &[u8]) -> (String, Vec<V>) {
         Err(p) => return ("panic".into(), vec![("no-panic".into(), p.class(), format!("{} panicked: {}", desc, p.message))]),
         Ok(x) => x,
     };
-    let first_ok = matches!(ref_parse(line1), RefParse::Accept { .. });
+    let first_ok = cut.is_none() && matches!(ref_parse(line1), RefParse::Accept { .. });
     let calls2 = *calls.borrow() - calls1;
     let written2 = io.borrow().written[written1..].to_vec();
-    let cls = if first_ok { "after-valid-line" } else { "after-undecodable-line" };
+    let cls = if first_ok { "after-valid-line" } else if cut.is_some() { "after-unterminated-fragment" } else { "after-undecodable-line" };
     if calls2 != 1 || r2.is_err() {
         out.push(("bridge-forwards-each-frame".into(), format!("second-line:{}", cls), format!("{}: second call returned {:?}, the bus saw {} call(s) for it", desc, r2, calls2)));
     } else if written2 != ref_wire(&reply_msg) {
@@ -688,6 +698,20 @@ pub fn run(ctx: &Ctx) -> Report {
             }
         }
     }
+    // an unterminated fragment (noise, half a frame) cut off by a timeout or end of input, then a valid line
+    for frag in [&b":0100"[..], b":", b"x", b":01000302FF", b"\r", b":0G"] {
+        for (ci, cutans) in [RAns::Fail(io::ErrorKind::TimedOut), RAns::Eof].iter().enumerate() {
+            for (si, l2) in seconds.iter().enumerate() {
+                all.evals += 1;
+                let (outcome, vs) = check_bridge_seq_cut(frag, Some(cutans.clone()), l2);
+                all.outcomes.add(&format!("bridge-seq:{}", outcome));
+                all.nontrivial_fp.push((1u64 << 46) | ((frag.len() as u64) << 8) | (ci * 4 + si) as u64);
+                for (clause, class, detail) in vs {
+                    all.violation("C17", Violation::new(&clause, class, detail, json!({"kind": "bridge-seq-cut", "fragment": hex(frag), "cut": if ci == 0 { "timeout" } else { "eof" }, "line2": hex(l2)}), (1 << 52) + (frag.len() * 16 + ci * 4 + si) as u64));
+                }
+            }
+        }
+    }
     let bridge_runs = all.evals;
     rep.transitions += bridge_runs;
     let nt = rep.absorb(all);
@@ -728,6 +752,11 @@ pub fn replay(ctx: &Ctx, case: &Value) -> Result<Vec<Violation>, String> {
                 }
                 _ => Err("unknown system".into()),
             }
+        }
+        Some("bridge-seq-cut") => {
+            let cut = if case["cut"].as_str() == Some("timeout") { RAns::Fail(io::ErrorKind::TimedOut) } else { RAns::Eof };
+            let (_, vs) = check_bridge_seq_cut(&crate::util::unhex(case["fragment"].as_str().ok_or("fragment")?), Some(cut), &crate::util::unhex(case["line2"].as_str().ok_or("line2")?));
+            Ok(mk(vs))
         }
         Some("bridge-seq") => {
             let (_, vs) = check_bridge_seq(&crate::util::unhex(case["line1"].as_str().ok_or("line1")?), &crate::util::unhex(case["line2"].as_str().ok_or("line2")?));
